@@ -3,16 +3,16 @@ CONSTANTS
   Proc = {"w1", "x"}
   Roots <- RootsS
   Kids <- KidsS
-  MaxPacks = 4
-  MaxIdx = 4
-  MaxSnaps = 2
+  MaxPacks = 3
+  MaxIdx = 3
+  MaxSnaps = 1
   CanBackup = {"w1"}
   CanRead = {}
   CanPrune = {"x"}
   CanForget = {"x"}
   CanTag = {}
-  Budget <- BudgetP
-  Variant = "prune_delete_first"
+  Budget <- BudgetQ
+  Variant = "ok"
 VIEW View
 INVARIANTS
   SnapshotData
